@@ -64,13 +64,21 @@ const char *eng_first_line_matching(const char *path, const char *needle, char *
   buf[0] = 0;
   if (!f) return buf;
   char line[512];
-  while (fgets(line, sizeof line, f))
+  int first = 1;
+  while (fgets(line, sizeof line, f)) {
+    if (first) { /* fall back to the first line of the file */
+      size_t l = strlen(line);
+      while (l && (line[l - 1] == '\n' || line[l - 1] == '\r')) line[--l] = 0;
+      snprintf(buf, bufsz, "%s", line);
+      first = 0;
+    }
     if (strstr(line, needle)) {
       size_t l = strlen(line);
       while (l && (line[l - 1] == '\n' || line[l - 1] == '\r')) line[--l] = 0;
       snprintf(buf, bufsz, "%s", line);
       break;
     }
+  }
   fclose(f);
   return buf;
 }
